@@ -443,6 +443,24 @@ impl Bitstr {
     }
 }
 
+#[cfg(feature = "verif_hooks")]
+impl Bitstr {
+    /// (range.start, range.end, backing length in bytes, strong count, borrowed)
+    pub fn verif_layout(&self) -> (usize, usize, usize, usize, bool) {
+        let borrowed = match &*self.data {
+            Cow::Borrowed(_) => true,
+            Cow::Owned(_) => false,
+        };
+        (
+            self.range.start,
+            self.range.end,
+            self.data.len(),
+            Rc::strong_count(&self.data),
+            borrowed,
+        )
+    }
+}
+
 impl PartialEq for Bitstr {
     fn eq(&self, other: &Bitstr) -> bool {
         self.eq_with(other)
